@@ -35,6 +35,8 @@ pub fn exec(ctx: &mut Ctx, case: &Case) {
             let Ok(s) = std::str::from_utf8(case.s(0)) else { return };
             kinds(ctx, s);
             both_families!(ctx, Prod::Path, s, c12_interleave, case.n[0]);
+            both_families!(ctx, Prod::Path, s, c12_adaptors, case.n[0]);
+            both_families!(ctx, Prod::Path, s, c12_adaptors, case.n[0].rotate_left(17) ^ 0x9E37_79B9_7F4A_7C15);
             both_families!(ctx, Prod::Path, s, c12_queries);
         }
         "all-masks" => {
@@ -49,6 +51,12 @@ pub fn exec(ctx: &mut Ctx, case: &Case) {
                     ctx.note_sample(Case::new("path").arg(s).num(mask));
                 }
                 both_families!(ctx, Prod::Path, s, c12_interleave, mask);
+            }
+            // adaptor programs: (steps, four 4-bit ops, final) enumerated sparsely but deterministically
+            let mut x = 0x1234_5678_9ABC_DEF1u64 ^ crate::rng::hash_bytes(s.as_bytes());
+            for _ in 0..96 {
+                x ^= x << 13; x ^= x >> 7; x ^= x << 17;
+                both_families!(ctx, Prod::Path, s, c12_adaptors, x);
             }
         }
         _ => ctx.fail("C12.harness", vec![], format!("unknown sub-monitor {}", case.mon)),
